@@ -861,3 +861,123 @@ class FrameVal:
     def same_rows_as(self, other):
         i = _i()
         return SBool(z3.ForAll([i], self.sel(i) == other.sel(i)))
+
+
+# --------------------------------------------------------------------------------------
+# column labels of a frame (an Index of labels)
+# --------------------------------------------------------------------------------------
+
+label_truthy = z3.Function("label_truthy", L, z3.BoolSort())
+
+
+class ColumnsVal:
+    """df.columns: a sequence of m labels lab(0..m-1), possibly with repeats; views by `csel`.
+    Axioms: duplicated(keep=first)[j] <=> an earlier position carries the same label; any() is python truthiness of
+    the selected labels (pandas Index.any()); len/empty by selection."""
+
+    __pyvc_symbolic__ = True
+
+    def __init__(self, name, m, lab, csel=None):
+        self.name, self.m, self.lab = name, m, lab
+        self._csel = csel or _always
+
+    @classmethod
+    def fresh(cls, name):
+        m = core.sym_int(f"ncols({name})")
+        cur().assume(m >= 0)
+        core.register_model_var(f"ncols({name})", m.z)
+        lf = z3.Function(cur().fresh_name(f"{name}_collabel"), z3.IntSort(), L)
+
+        def proj(mod, m=m, lf=lf):
+            try:
+                k = mod.eval(m.z, model_completion=True).as_long()
+            except Exception:
+                return "?"
+            return {"labels": [str(mod.eval(lf(z3.IntVal(j)), model_completion=True)) for j in range(min(k, 6))],
+                    "truthy": [str(mod.eval(label_truthy(lf(z3.IntVal(j))), model_completion=True)) for j in range(min(k, 6))]}
+
+        core.register_model_var(f"columns({name})", proj)
+        return cls(name, m, lambda j: lf(j))
+
+    def pyvc_class(self):
+        import pandas as pd
+
+        return pd.Index
+
+    def csel(self, j):
+        return z3.And(j >= 0, j < self.m.z, self._csel(j))
+
+    def duplicated(self, keep="first"):
+        def at(j):
+            k = _i("k")
+            rel = {"first": k < j, "last": k > j, False: k != j}[keep]
+            return z3.Exists([k], z3.And(self.csel(k), rel, self.lab(k) == self.lab(j)))
+
+        return _ColMask(self, at)
+
+    @property
+    def has_duplicates(self):
+        a, b = _i("a"), _i("b")
+        return SBool(z3.Exists([a, b], z3.And(self.csel(a), self.csel(b), a < b, self.lab(a) == self.lab(b))))
+
+    @property
+    def is_unique(self):
+        return Not(self.has_duplicates)
+
+    def pyvc_getitem(self, I, k):
+        if isinstance(k, _ColMask):
+            return ColumnsVal(self.name, self.m, self.lab, lambda j: z3.And(self._csel(j), k.at(j)))
+        raise Unsupported("columns[...] with non-mask key")
+
+    def any(self):
+        j = _i("j")
+        return SBool(z3.Exists([j], z3.And(self.csel(j), label_truthy(self.lab(j)))))
+
+    @property
+    def empty(self):
+        j = _i("j")
+        return SBool(z3.Not(z3.Exists([j], self.csel(j))))
+
+    def pyvc_len(self):
+        if self._csel is _always:
+            return self.m
+        c = core.sym_int("ncount")
+        j = _i("j")
+        cur().assume(z3.And(c.z >= 0, c.z <= self.m.z))
+        cur().assume((c.z == 0) == z3.Not(z3.Exists([j], self.csel(j))))
+        return c
+
+    @property
+    def shape(self):
+        return (self.pyvc_len(),)
+
+    def tolist(self):
+        return SAny(name="labels")
+
+    def contains_label(self, l):
+        j = _i("j")
+        return SBool(z3.Exists([j], z3.And(self.csel(j), self.lab(j) == _term(l))))
+
+    def pyvc_contains(self, I, x):
+        return self.contains_label(x)
+
+
+class _ColMask:
+    def __init__(self, cols, at):
+        self.cols, self.at = cols, at
+
+    def __invert__(self):
+        return _ColMask(self.cols, lambda j: z3.Not(self.at(j)))
+
+    def any(self):
+        j = _i("j")
+        return SBool(z3.Exists([j], z3.And(self.cols.csel(j), self.at(j))))
+
+
+def _frame_columns(self):
+    if getattr(self, "_columns", None) is None:
+        self._columns = ColumnsVal.fresh(self.name)
+    return self._columns
+
+
+FrameVal.columns = property(_frame_columns)
